@@ -28,6 +28,8 @@ pub struct NodeCfg {
     /// how the driver uses the library on a delivery: 0 = decode_packet then process_packet,
     /// 1 = process_packet then decode_packet, 2 = process_packet only
     pub call_mode: u8,
+    /// firmware with a single buffer for everything it transmits: responses are written into the TX buffer
+    pub shared_buf: bool,
 }
 
 pub struct Cfg {
@@ -119,6 +121,7 @@ pub fn draw(ch: &mut Chooser, prof: &Profile) -> Cfg {
         };
         let rx_mode = ch.choose(2) as u8;
         let call_mode = ch.choose(3) as u8;
+        let shared_buf = ch.choose(4) == 3;
         if i >= n_nodes {
             continue;
         }
@@ -136,6 +139,7 @@ pub fn draw(ch: &mut Chooser, prof: &Profile) -> Cfg {
             boot_uuid,
             rx_mode,
             call_mode,
+            shared_buf,
         });
     }
     ch.mark();
@@ -149,7 +153,7 @@ pub fn draw(ch: &mut Chooser, prof: &Profile) -> Cfg {
             continue;
         }
         let lvl = ch.choose(max + 1) as usize;
-        let byte_altering = matches!(k, F_FLIP | F_BURST | F_GARBLE | F_TRUNC | F_EXTEND | F_MISROUTE);
+        let byte_altering = matches!(k, F_FLIP | F_BURST | F_GARBLE | F_TRUNC | F_EXTEND | F_MISROUTE | F_BRIDGE);
         let lossy = matches!(k, F_DROP | F_DUP | F_DELAY);
         if fault_free && (byte_altering || lossy) {
             continue;
